@@ -10,7 +10,8 @@
    nothing or the default value for every other member of T1, and no other entry.
    PARTIAL: the family is `flat_desc` (top-level structures of primitives and (w)strings, no
    optional members, distinct 28-bit ids); unions, collections, optional members, nested
-   evolution and TryConstruct are outside (see the witnesses at the end). *)
+   evolution and TryConstruct are outside (see the witnesses at the end).  The XCDR codec model
+   follows /repo after the C09 repairs (char8 one octet, XCDR1 float128 alignment). *)
 From DustDDS Require Import Base.Machine Xcdr.XcdrBytes Xcdr.XcdrModel Xcdr.XcdrProps
   Xcdr.AssignModel Xcdr.AssignProofs Xcdr.AssignEvolve Xcdr.AssignSpec Xcdr.AssignCorr Xcdr.AssignWitness.
 Open Scope Z_scope.
@@ -21,7 +22,9 @@ Theorem C39_assignable_refl : forall tc t, struct_assignable tc t t = Ok true.
 Proof. exact assignable_refl. Qed.
 
 (* also without the `self == t2` shortcut: the rules accept T := T when the member type
-   identifiers are supported and T is FINAL, or has a member and distinct member ids *)
+   identifiers are ones the code can compare (`tid_supported`: not TkNone / map / SCC / extended,
+   which are assignable from nothing - see C39_unsupported_identifier_rejected) and T is FINAL,
+   or has a member and distinct member ids *)
 Theorem C39_rules_refl : forall tc t,
   forallb (fun m => tid_supported (sm_tid m)) (st_members t) = true ->
   (st_final t = true /\ st_mutable t = false) \/
@@ -29,11 +32,9 @@ Theorem C39_rules_refl : forall tc t,
   struct_rules tc t t = Ok true.
 Proof. exact rules_refl. Qed.
 
-(* a decision is returned (no todo!()) whenever the reader-side member type identifiers are
-   supported *)
-Theorem C39_decision_total : forall tc t1 t2,
-  forallb (fun m => tid_supported (sm_tid m)) (st_members t1) = true ->
-  exists b, struct_assignable tc t1 t2 = Ok b.
+(* a decision is always returned: no panic for ANY two structure type objects, hostile flags
+   and type identifiers (TkNone, maps, SCC, extended) included *)
+Theorem C39_decision_total : forall tc t1 t2, exists b, struct_assignable tc t1 t2 = Ok b.
 Proof. exact assignable_total. Qed.
 
 (* ------------------------------------------------------------------ evolution decodes *)
@@ -141,13 +142,17 @@ Theorem C39_refuted_member_id_u16 :
   C39_known (mkC39 (Ev V2 LE tce_default w4_t1 w4_t2 (VData w4_x)) (OAs (Ok true))) = 4%N.
 Proof. exact witness_member_id_u16. Qed.
 
-(* 5: todo!() on TkNone / maps / SCC / extended identifiers of the reader-side type object *)
-Theorem C39_refuted_todo :
-  struct_assignable tce_default (mkST 1 1 [mkSM 0 1 0 TkNone]) (mkST 1 2 [mkSM 0 1 0 TkInt32]) = Panic P_TID_NONE /\
-  struct_assignable tce_default (mkST 1 1 [mkSM 0 1 0 TiMapSmall]) (mkST 1 2 [mkSM 0 1 0 TkInt32]) = Panic P_TID_MAPS /\
-  struct_assignable tce_default (mkST 1 1 [mkSM 0 1 0 TiScc]) (mkST 1 2 [mkSM 0 1 0 TkInt32]) = Panic P_TID_SCC /\
-  struct_assignable tce_default (mkST 1 1 [mkSM 0 1 0 TiDefault]) (mkST 1 2 [mkSM 0 1 0 TkInt32]) = Panic P_TID_DEFAULT.
-Proof. exact (proj2 witness_todo). Qed.
+(* former finding 5 (todo!() on TkNone / maps / SCC / extended identifiers) is repaired in /repo
+   (abb552f): such member types are rejected; T := T still holds through the equality shortcut,
+   while the rules alone answer false *)
+Theorem C39_unsupported_identifier_rejected :
+  struct_assignable tce_default (mkST 1 1 [mkSM 0 1 0 TkNone]) (mkST 1 2 [mkSM 0 1 0 TkInt32]) = Ok false /\
+  struct_assignable tce_default (mkST 1 1 [mkSM 0 1 0 TiMapSmall]) (mkST 1 2 [mkSM 0 1 0 TkInt32]) = Ok false /\
+  struct_assignable tce_default (mkST 1 1 [mkSM 0 1 0 TiScc]) (mkST 1 2 [mkSM 0 1 0 TkInt32]) = Ok false /\
+  struct_assignable tce_default (mkST 1 1 [mkSM 0 1 0 TiDefault]) (mkST 1 2 [mkSM 0 1 0 TkInt32]) = Ok false /\
+  struct_assignable tce_default (mkST 1 1 [mkSM 0 1 0 TkNone]) (mkST 1 1 [mkSM 0 1 0 TkNone]) = Ok true /\
+  struct_rules tce_default (mkST 1 1 [mkSM 0 1 0 TkNone]) (mkST 1 1 [mkSM 0 1 0 TkNone]) = Ok false.
+Proof. exact unsupported_rejected. Qed.
 
 (* 6: a member optional on one side only (FINAL / APPENDABLE) *)
 Theorem C39_refuted_optional_mismatch :
@@ -169,6 +174,13 @@ Theorem C39_refuted_typed_sample_none :
     = Some [(0, VP KI32 5); (1, VP KI32 0)] /\
   C39_known (mkC39 (Ty V2 LE tce_default w7_t1 w7_t2 (VData w7_x)) (OAs (Ok true))) = 7%N.
 Proof. exact witness_typed_none. Qed.
+
+(* outside class 7 the typed sample is delivered *)
+Theorem C39_typed_sample_delivered : forall t1 d,
+  (forall m, In m (ad_members t1) ->
+     lookup (am_id m) d <> None \/ m_opt (am_info m) = true \/ am_use_default m = true) ->
+  exists s, typed_sample t1 d = Some s.
+Proof. exact typed_sample_delivered. Qed.
 
 (* the integer-widening candidate of DESIGN.md (D35) is not present in this tree *)
 Theorem C39_no_integer_widening :
@@ -205,7 +217,8 @@ Print Assumptions C39_refuted_int_from_hashed.
 Print Assumptions C39_refuted_nested_unchecked.
 Print Assumptions C39_refuted_nested_dheader.
 Print Assumptions C39_refuted_member_id_u16.
-Print Assumptions C39_refuted_todo.
+Print Assumptions C39_unsupported_identifier_rejected.
 Print Assumptions C39_refuted_optional_mismatch.
 Print Assumptions C39_refuted_typed_sample_none.
+Print Assumptions C39_typed_sample_delivered.
 Print Assumptions C39_no_integer_widening.
